@@ -12,6 +12,7 @@
     the real validators on sampled and seeded files.
 """
 import ast
+import json
 import multiprocessing
 import os
 import re
@@ -547,6 +548,10 @@ class RegexWitness(Family):
 		self.name = f'regex:{entry["owner"]}:{entry["id"]}'
 
 	def candidates(self, lines, relpath):
+		if 'Cpp17TraitsValidator' == self.entry['owner'] and relpath.endswith(('Traits.h', 'TraitsTests.cpp', 'Logging.h')):
+			return []  # the validator exempts these files by name
+		if 'BasicFunctionAliasValidator' == self.entry['owner'] and relpath.endswith('functions.h'):
+			return []
 		if self.new_line:
 			return [index for index, line in enumerate(lines[:-1]) if not line and index >= LICENSE_LINES + 2]
 		return [
@@ -556,6 +561,8 @@ class RegexWitness(Family):
 	def apply(self, lines, site, rng):
 		witness = self.entry['witness']
 		features = self.entry['features']
+		if '/*' in witness and '*/' not in witness.split('/*')[-1] and not features['eol']:
+			witness += ' */'  # keep the file lexable: an unterminated comment sends the lexer's comment regex into exponential backtracking
 		if self.new_line:
 			if features['bol']:
 				new_line = witness if features['eol'] else witness + rng.choice(['', ' seeded'])
@@ -685,7 +692,7 @@ def build_catalogue(entries, constants):
 		TextEdit('formatting:catch-on-own-line', r'^(\t+)} catch ', r'\1}\n\1catch ', 'catchAndClosingTryBraceOnSeparateLines', None),
 		TextEdit('formatting:enum-not-scoped', r'\benum class ', 'enum ', 'multiConditionChecker', 'use enum class instead of enum'),
 		TextEdit(
-			'formatting:macro-semicolon', r'^(\t+)(DEFINE_\w+_TESTS?|MAKE_\w+_TESTS?)\(([^()]*)\)$', r'\1\2(\3);', 'macroSemicolonChecker', None,
+			'formatting:macro-semicolon', r'^(\t+)(DEFINE_[A-Z_]+_TESTS?|MAKE_[A-Z_]+_TESTS?)\(([^()]*)\)$', r'\1\2(\3);', 'macroSemicolonChecker', None,
 			lambda line, _: 'NOTIFICATION' not in line and 'RECEIPT' not in line and 'RESULT' not in line and '_TYPE' not in line),
 	]
 	for entry in entries:
@@ -984,6 +991,29 @@ def check_regex_correspondence(ctx, entries, lines, label):
 # region entry points
 
 
+STALL_TIMEOUT_S = 150
+
+
+def report_stalled(ctx):
+	"""No chunk finished for a long time: a worker is stuck inside the linter (typically a regular expression that backtracks
+	exponentially; that cannot be interrupted from Python). The case each worker noted before starting is the failing input."""
+	now = time.time()
+	found = False
+	for name in sorted(os.listdir(_POOL_ROOT)):
+		path = os.path.join(_POOL_ROOT, name, 'current-case.json')
+		if name.startswith('seeded-') and os.path.exists(path):
+			with open(path, 'rt', encoding='utf8') as infile:
+				note = json.load(infile)
+			if now - note['since'] > STALL_TIMEOUT_S * 0.8:
+				found = True
+				case = note['case']
+				ctx.fail(
+					'property', f'{case["name"]} in {case["relpath"]} line {case["site"] + 1}: the linter does not finish on the seeded file '
+					f'(no answer for {int(now - note["since"])} s)', {'kind': 'seeded', 'case': case, 'dirty': None, 'stalled': True})
+	if not found:
+		ctx.fail('corr', 'the seeded-edit workers stalled but no stuck case was identified', {'kind': 'stall'})
+
+
 def _pool_init():
 	_worker_init(os.path.join(_POOL_ROOT, f'seeded-{os.getpid()}'))
 
@@ -1072,7 +1102,14 @@ def run(ctx):
 			ctx.count('seeded:files-with-sites', len(sites_by_file))
 			chunks = [cases[start:start + 12] for start in range(0, len(cases), 12)]
 			model_requests = []
-			for results in pool.imap_unordered(run_chunk, chunks):
+			iterator = pool.imap_unordered(run_chunk, chunks)
+			for _ in chunks:
+				try:
+					results = iterator.next(timeout=STALL_TIMEOUT_S)
+				except multiprocessing.TimeoutError:
+					report_stalled(ctx)
+					pool.terminate()
+					break
 				for result in results:
 					report_result(ctx, result, catalogue, entries, model_requests)
 
@@ -1110,6 +1147,7 @@ def run(ctx):
 				if '-' != answer:
 					ctx.fail('corr', f'the model is not silent on the conforming file {relpath}: {answer[:200]}', {'kind': 'model-silent', 'file': relpath})
 				ctx.case(('model-silent', relpath), None)
+		check_frozen_catalogue(ctx)
 		ctx.count('regex:table-entries', len(entries))
 		ctx.count('regex:typo-entries', typo_count)
 	finally:
@@ -1147,6 +1185,8 @@ def replay(ctx, payload):
 		check_regex_correspondence(ctx, entries, [case['line']], 'replay')
 	elif 'ci' == kind:
 		finish_full_run(ctx, start_full_run(ctx))
+	elif 'catalogue' == kind:
+		check_frozen_catalogue(ctx)
 	else:
 		run(ctx)
 
@@ -1176,3 +1216,44 @@ MANIFEST = {
 		'proved. The namespace/forward parsers run on a PLY stand-in. \\w \\d \\b modelled on ASCII. SHA-1 is a parameter.'),
 	'technique': 'Lean 4 theorems over a hand-written model + differential correspondence with the Python implementation',
 }
+
+
+# region frozen catalogue (seeded/c19/typo_catalogue.json)
+
+
+def check_frozen_catalogue(ctx):
+	"""Strings that violate a typo-list / function-alias rule, frozen from the pinned commit: the CURRENT validators must report the
+	same message for each, in any context the rule does not anchor (so a weakened or dropped pattern is a failing input)."""
+	import validation  # pylint: disable=import-error,import-outside-toplevel
+	path = os.path.join(ROOT, 'seeded', 'c19', 'typo_catalogue.json')
+	with open(path, 'rt', encoding='utf8') as infile:
+		catalogue = json.load(infile)['entries']
+	validators = {'TypoChecker': validation.TypoChecker(), 'BasicFunctionAliasValidator': validation.BasicFunctionAliasValidator()}
+	rng = ctx.rng
+	for entry in catalogue:
+		validator = validators[entry['validator']]
+		for violation in entry['violations']:
+			glue = ' ' if entry['wordb'] else ''
+			contexts = [violation]
+			if not entry['bol'] and not entry['eol']:
+				contexts += [f'\tauto x = 1; // {violation}{glue}', f'abc{glue}{violation}{glue}def' if not entry['wordb'] else f'abc {violation} def']
+			elif entry['bol'] and not entry['eol']:
+				contexts += [violation + ' trailing']
+			elif entry['eol'] and not entry['bol']:
+				contexts += ['\tleading ' + violation]
+			for line in contexts:
+				reports = []
+				validator.reset('src/catapult/seeded/Seeded.cpp', lambda group, err: reports.append((group, err.lineno, err.kind)))  # pylint: disable=cell-var-from-loop
+				number = rng.randrange(1, 500)
+				validator.check(number, line)
+				validator.finalize()
+				ctx.case(('catalogue', entry['message'], line), None)
+				ctx.count('catalogue:lines')
+				if (validator.NAME, number, entry['message']) not in reports:
+					ctx.fail(
+						'property', f'catalogue violation {violation!r} of rule "{entry["message"]}" is not reported in line {line!r} '
+						f'(pattern at the pinned commit: {entry["pattern_at_pinned_commit"]!r}); reported: {reports[:3]}',
+						{'kind': 'catalogue', 'entry': entry, 'line': line})
+
+
+# endregion
